@@ -1667,7 +1667,23 @@ fn decoy_system(sys: &System) -> System {
 pub fn run_c19(st: &Shared, _tier: Tier) -> RunReport {
     let mut rep = RunReport::default();
     let sys = gen_system(&mut st.borrow_mut().ch);
-    let vars: Vec<Var> = (0..sys.n).map(|_| Var::new()).collect();
+    let mut vars: Vec<Var> = (0..sys.n).map(|_| Var::new()).collect();
+    // one system in four uses the axis variables as parameters too
+    if st.borrow_mut().ch.odds("axes_as_parameters", 1, 4) {
+        let mut axes = vec![Var::X, Var::Y, Var::Z];
+        let ch = &mut st.borrow_mut().ch;
+        for i in 0..sys.n {
+            if axes.is_empty() {
+                break;
+            }
+            if ch.odds("axis_here", 1, 3) {
+                let k = ch.choose("which_axis", axes.len() as u32) as usize;
+                vars[i] = axes.swap_remove(k);
+            }
+        }
+        rep.count("op.axes_used_as_parameters", 1);
+    }
+    let vars = vars;
     let nfree = sys.free.iter().filter(|f| **f).count();
     rep.sample = format!(
         "n={} free={} rows={} exact={} scale={:e} xscale={:e} rows[0]={:?}",
